@@ -55,6 +55,8 @@ import (
 //	expire   memory-cache TTL pass after the clock moved past the (1 ns) TTL
 //	delete   DeleteCacheFile(name)
 //	reopen   Close and open a new CAStore on the same directories
+//	hold     GetCacheFileReader(name) and read the first half; the reader is kept (a slow client)
+//	resume   read a kept reader to its end: everything it served must hash to the name it was opened under
 type Op struct {
 	Kind  string `json:"kind"`
 	Name  int    `json:"name"`            // slot whose digest is the claimed name
@@ -126,9 +128,9 @@ func gen(t *rapid.T) Case {
 	// capacities: nothing fits, less than one typical blob, one blob, everything (with slack for extended streams)
 	c.MemMax = rapid.SampledFrom([]int{0, len(c.Blobs[nb-1]) / 2, len(c.Blobs[nb-1]) + 1, total + 8, 4*total + 4096}).Draw(t, "memmax")
 	c.Retries = rapid.IntRange(1, 3).Draw(t, "retries")
-	kinds := []string{"upload", "upload", "create", "write", "refresh", "refresh", "refresh", "delete", "reopen"}
+	kinds := []string{"upload", "upload", "create", "write", "refresh", "refresh", "refresh", "delete", "reopen", "hold", "resume"}
 	if c.Mem {
-		kinds = []string{"upload", "create", "write", "refresh", "refresh", "refresh", "refresh", "refresh", "drain", "drain", "drain", "drain", "expire", "expire", "delete", "reopen"}
+		kinds = []string{"upload", "create", "write", "refresh", "refresh", "refresh", "refresh", "refresh", "drain", "drain", "drain", "drain", "expire", "expire", "delete", "reopen", "hold", "hold", "resume"}
 	}
 	c.Ops = rapid.SliceOfN(rapid.Custom(func(t *rapid.T) Op {
 		op := Op{Kind: rapid.SampledFrom(kinds).Draw(t, "kind"), Name: rapid.IntRange(0, nb-1).Draw(t, "name")}
@@ -144,6 +146,18 @@ func gen(t *rapid.T) Case {
 		}
 		return op
 	}), 1, 14).Draw(t, "ops")
+	if c.Mem && rapid.IntRange(0, 3).Draw(t, "slow_reader_prefix") == 0 {
+		// A slow client: a blob arrives from the backend, a reader of it is opened and half
+		// read, the drain moves the blob to disk, the next blob arrives from the backend.
+		a, b := rapid.IntRange(0, nb-1).Draw(t, "pa"), rapid.IntRange(0, nb-1).Draw(t, "pb")
+		first := Op{Kind: "refresh", Name: a}
+		genWrite(t, &first, nb)
+		first.Mut = "same"
+		second := Op{Kind: "refresh", Name: b}
+		genWrite(t, &second, nb)
+		pre := []Op{first, {Kind: "hold", Name: a}, {Kind: "drain", Steps: rapid.IntRange(1, 3).Draw(t, "psteps")}, second}
+		c.Ops = append(pre, c.Ops...)
+	}
 	return c
 }
 
@@ -372,6 +386,35 @@ func run(c Case) pbt.Verdict {
 	}
 	classes := map[string]bool{}
 	nontrivial := false
+	// readers kept open by "hold" ops, oldest first
+	type heldReader struct {
+		r     store.FileReader
+		name  string
+		first []byte
+		at    int
+	}
+	var held []*heldReader
+	defer func() {
+		for _, h := range held {
+			h.r.Close()
+		}
+	}()
+	// resumeOne reads a kept reader to its end. A read error is not judged (the blob may have
+	// been deleted meanwhile); what is served without error must hash to the name.
+	resumeOne := func(h *heldReader, when string) string {
+		rest, rerr := io.ReadAll(h.r)
+		h.r.Close()
+		if rerr != nil {
+			classes["held-reader-read-error"] = true
+			return ""
+		}
+		all := append(append([]byte{}, h.first...), rest...)
+		if hexOf(all) != h.name {
+			return fmt.Sprintf("blob served under a digest it does not hash to (reader kept open since op %d)\n  %s: the reader opened under %s served %d bytes hashing to %s", h.at, when, h.name, len(all), hexOf(all))
+		}
+		classes["held-reader-read-on"] = true
+		return ""
+	}
 	pendingMismatchInMemWindow := false // a mismatching refresh went down the memory path and no drain step ran since
 
 	for i, op := range c.Ops {
@@ -461,6 +504,34 @@ func run(c Case) pbt.Verdict {
 			e.cas.VerifCleanupExpiredMemoryEntries()
 		case "delete":
 			e.cas.DeleteCacheFile(name)
+		case "hold":
+			if len(held) >= 3 {
+				continue
+			}
+			r, err := e.cas.GetCacheFileReader(name)
+			if err != nil {
+				continue
+			}
+			half := make([]byte, len(contentOf[name])/2)
+			n, rerr := io.ReadFull(r, half)
+			if rerr != nil && n == 0 && len(half) > 0 {
+				r.Close()
+				continue
+			}
+			held = append(held, &heldReader{r: r, name: name, first: half[:n], at: i})
+			classes["reader-held"] = true
+			if e.cas.VerifMemCacheNumEntries() > 0 {
+				classes["reader-held-while-memory-cache-holds-entries"] = true
+			}
+		case "resume":
+			if len(held) == 0 {
+				continue
+			}
+			h := held[0]
+			held = held[1:]
+			if msg := resumeOne(h, fmt.Sprintf("op %d (resume)", i)); msg != "" {
+				return pbt.Fail("%s", msg)
+			}
 		case "reopen":
 			e.cas.Close()
 			ne, err := openStore(root, c.Mem, c.MemMax, c.Retries, clk)
@@ -515,6 +586,14 @@ func run(c Case) pbt.Verdict {
 	if msg != "" {
 		return pbt.Fail("%s", msg)
 	}
+	// Readers still kept open are read to their end now, after everything was drained.
+	for len(held) > 0 {
+		h := held[0]
+		held = held[1:]
+		if msg := resumeOne(h, "at quiescence"); msg != "" {
+			return pbt.Fail("%s", msg)
+		}
+	}
 	if visible > 0 {
 		classes["some-blob-visible-at-end"] = true
 	}
@@ -535,7 +614,7 @@ func TestProp(t *testing.T) {
 	pbt.Main(t, pbt.Spec{
 		ID: "C01",
 		Rule: "store: rapid draws 2-4 blobs (0-97 bytes quick, 0-385 thorough; slot 0 sometimes the empty blob), a memory write-through configuration (off / on with capacity 0, half a blob, one blob, all blobs, ample; 1-3 drain retries) and 1-14 ops over the slots' digests: writes through chunked upload+commit(+metainfo generation), CreateCacheFile, WriteCacheFile and the backend-refresh call WriteBlobToCacheWithMetaInfo (Stat size equal to or different from the stream, stream optionally failing), each sending the slot's bytes or a bit-flipped / truncated / extended / other-slot / empty variant, in WriteAt (any order) or Seek+Write chunks; drain steps, TTL expiry, delete, reopen. " +
-			"After EVERY op, after every final drain step and at quiescence, every name is read back: reader bytes must sha256 to the name, Stat size must equal the length of the name's content, TorrentMeta must name the digest and carry length and crc32 piece sums of the name's content, listed names must pass the same test; a write whose bytes do not hash to the name must return an error. " +
+			"After EVERY op, after every final drain step and at quiescence, every name is read back: reader bytes must sha256 to the name, Stat size must equal the length of the name's content, TorrentMeta must name the digest and carry length and crc32 piece sums of the name's content, listed names must pass the same test; a write whose bytes do not hash to the name must return an error; readers kept open by hold ops (first half read) are read to their end by a later resume op or at quiescence, and what they served in total must hash to the name they were opened under (a read error is not judged). " +
 			"http: the same oracle on an in-process origin blobserver (cluster upload, internal transfer and duplicate-upload routes, backend refresh through the real Refresher triggered by GET; reads through GET blob, GET metainfo and originstorage torrent piece readers). " +
 			"race: one large blob (64 KiB-4 MiB quick, up to 8 MiB thorough, content expanded from a drawn seed) and 1-4 writer ops on its digest (refresh / WriteCacheFile / upload+commit sending the same bytes or a same-length bit-flipped / same-length foreign / truncated / extended variant, backend Stat equal to the stream or to the true length; delete; drain) run while 1-2 poller goroutines per kind read GetCacheFileReader / GetCacheFileStat / GetCacheFileMetadata of that digest in a loop, optionally next to a concurrent drain worker; memory cache off or on with capacity nothing / one byte short / exact / ample. Every successful concurrent observation must be the content of the digest (bytes sha256 to the name, size, metainfo); polls that find nothing or fail are not judged; a mismatching write must return an error; the sequential oracle runs at quiescence. " +
 			"non-trivial = the case has a mismatching upload commit, or a mismatching refresh that could take the memory path and is observed before the next drain step, or (race) pollers completed observations while a mismatching write was running; distinct by case hash",
